@@ -145,7 +145,7 @@ Definition spec_decode (s : list N) : option (list N) :=
   match parse_preamble s with
   | Some (v, r) =>
       match run (length r) r [] with
-      | Some rout => if nlen rout =? v then Some (rev rout) else None
+      | Some rout => if nlen rout =? v then Some (frev rout) else None
       | None => None
       end
   | None => None
@@ -331,7 +331,7 @@ Theorem spec_decode_sound s x : spec_decode s = Some x -> DenotesSnappy s x.
 Proof.
   unfold spec_decode. destruct (parse_preamble s) as [[v r]|] eqn:EP; [|discriminate].
   destruct (run (length r) r []) as [rout|] eqn:ER; [|discriminate].
-  destruct (nlen rout =? v) eqn:EL; [|discriminate]. intros H; injection H as <-.
+  destruct (nlen rout =? v) eqn:EL; [|discriminate]. rewrite frev_rev. intros H; injection H as <-.
   destruct (parse_preamble_sound _ _ _ EP) as (pre & -> & HP).
   destruct (run_sound _ _ _ _ ER) as (es & Hes & Hx).
   exists pre, r, es. repeat split; try assumption.
@@ -346,7 +346,7 @@ Proof.
   intros (pre & body & es & -> & HP & Hes & Hx). unfold spec_decode.
   rewrite (parse_preamble_complete _ _ body HP).
   rewrite (run_complete _ _ Hes _ _ _ Hx) by lia.
-  rewrite nlen_rev. rewrite N.eqb_refl, rev_involutive. reflexivity.
+  rewrite nlen_rev. rewrite N.eqb_refl, frev_rev, rev_involutive. reflexivity.
 Qed.
 
 (** The denoted content is unique (the grammar is unambiguous). *)
